@@ -121,7 +121,7 @@ def run(chk: Check) -> None:
     _unknown(sub)
     chk.adopt(sub, None, "R08.4")
     encode_stream(chk, "R08.4")
-    codec_state(chk, "R08.5")
+    codec_state(chk, "R08.5", ("auxdata", "serialization"))
     no_result_caches(chk, "R08.5")
     value_passthrough(chk, "R08.5")
 
